@@ -278,6 +278,31 @@ for l1, l2, n_sym in ((300, 40, 4), (40, 300, 4), (257, 257, 20), (520, 30, 4)):
             {"lengths": [l1, l2], "alphabet size": n_sym}, lambda l1=l1, l2=l2, n_sym=n_sym: long_positional_contract(l1, l2, n_sym))
 
 
+def float_table_contract(values):
+    """a score table given as floating-point numbers: refused (the documented behaviour: integer scores only), or -
+    if a version accepts floats that are whole numbers up to rounding error - stored as the *nearest* integers;
+    never silently truncated (0.57 * 100 = 56.99999999999999 is 57, not 56) and never accepted when fractional"""
+    alph = seq.Alphabet(list(range(2)))
+    table = np.array(values, dtype=np.float64).reshape(2, 2)
+    try:
+        m = align.SubstitutionMatrix(alph, alph, table)
+    except (TypeError, ValueError):
+        return None
+    got = np.asarray(m.score_matrix()).astype(np.int64)
+    near = np.rint(table)
+    if np.abs(table - near).max() > 1e-6:
+        return f"the fractional score table {table.tolist()} was accepted (stored as {got.tolist()})"
+    if not np.array_equal(got, near.astype(np.int64)):
+        return f"the score table {table.tolist()} is stored as {got.tolist()}: not the nearest integers {near.astype(int).tolist()}"
+    return None
+
+
+for values in ([1.0, 2.0, 3.0, 4.0], [0.57 * 100, -0.29 * 100, 3.0, 1.0], [56.99999999999999, 0.0, 0.0, -28.999999999999996], [1.5, 0, 0, 1], [0.1 * 3 * 10, 1, 1, 2],
+               [2.0000000001, 1, 1, 2], [1e-12, 1, 1, -1e-12]):
+    R.check("substitution matrix accessors and transpose() agree with the score table", "score table of floating-point numbers",
+            {"table": [repr(v) for v in values]}, lambda values=values: float_table_contract(values))
+
+
 def extreme_scores(value):
     """scores at the edge of the 32-bit range would overflow in the alignment table: the constructor refuses the two
     extreme values; large but safe magnitudes are accepted and aligned correctly"""
